@@ -8,72 +8,124 @@ package rle
 
 // ---- write buffer
 
+//@ pred bufOK(w) := w != nil && 0 <= w.i && w.i <= #w.d
+
 //@ func newWriteBuffer
+//@   requires size >= 0
+//@   safety[C07]
 //@   modifies nothing
 //@   ensures res != nil && freshsince(res) && freshsince(res.d)
+//@   ensures[C07] bufOK(res) && res.i == 0
 
 //@ func (*writeBuffer).size
 //@   modifies nothing
 //@   ensures res == w.i
 
 //@ func (*writeBuffer).bytes
+//@   requires bufOK(w)
+//@   safety[C07]
 //@   modifies nothing
+//@   ensures[C07] #res == w.i
 
 //@ func (*writeBuffer).write
-//@   requires w != nil
+//@   requires bufOK(w)
+//@   safety[C07]
 //@   modifies w, HA(w.d)
 //@   ensures err == nil && sameOrFresh(w.d)
+//@   ensures[C07] bufOK(w) && w.i == old(w.i) + #dat
 
 //@ func (*writeBuffer).writeAt
-//@   requires w != nil
+//@   requires bufOK(w) && 0 <= off && off <= w.i
+//@   safety[C07]
 //@   modifies w, HA(w.d)
 //@   ensures err == nil && sameOrFresh(w.d)
+//@   ensures[C07] bufOK(w) && w.i == max(old(w.i), off + #dat)
+//@   ensures[C07] forall j in 0..#dat: w.d[off + j] == dat[j]
 
 // ---- encoder
+//
+// Representation invariant (scalar part): at most 7 values are staged, an
+// open bit-packed run has 1..63 groups (so its header 2*groups+1 fits one
+// ULEB128 byte) and ends exactly at the write position, a pending repeat of 8
+// or more has exactly its first 7 values staged.
 
 //@ func New
+//@   requires 1 <= width && size >= 0
+//@   safety[C07]
 //@   modifies nothing
 //@   ensures width <= 4 ==> err == nil && res0 != nil && freshsince(res0)
 //@   ensures width <= 4 ==> res0.out != nil && freshsince(res0.out) && freshsince(res0.out.d) && freshsince(res0.valBuf) && #res0.valBuf == 8
+//@   ensures[C07] width <= 4 ==> encInv(res0) && res0.bitWidth == width && res0.out.i == 0
 
-// Ownership part of the encoder invariant: the RLE object owns its write
-// buffer and its 8-value staging buffer.
-//@ pred rleShape(r) := r != nil && r.out != nil && #r.valBuf == 8
-//@ pred rleKeeps(r) := r.out == old(r.out) && r.valBuf == old(r.valBuf) && sameOrFresh(r.out.d)
+//@ pred rleShape(r) := r != nil && r.out != nil && #r.valBuf == 8 && bufOK(r.out) && 1 <= r.bitWidth && r.bitWidth <= 4
+//@ pred rleKeeps(r) := r.out == old(r.out) && r.valBuf == old(r.valBuf) && r.bitWidth == old(r.bitWidth) && sameOrFresh(r.out.d)
+//@ pred openRun(r) := (r.headerPointer == -1 ==> r.groupCount == 0) && (r.headerPointer != -1 ==> 0 <= r.headerPointer && 1 <= r.groupCount && r.out.i == r.headerPointer + 1 + r.groupCount * r.bitWidth) && 0 <= r.groupCount && r.groupCount <= 63
+//@ pred encInv(r) := rleShape(r) && openRun(r) && 0 <= r.bufCount && r.bufCount <= 7 && 0 <= r.repeatCount && (r.repeatCount < 8 ==> r.repeatCount <= r.bufCount) && (r.repeatCount >= 8 ==> r.bufCount == 7)
 
 //@ func (*RLE).Write
-//@   requires rleShape(r)
+//@   split r.bitWidth == 1
+//@   split r.bitWidth == 2
+//@   split r.bitWidth == 3
+//@   requires encInv(r)
+//@   safety[C07]
 //@   modifies r, r.out, HA(r.out.d), HA(r.valBuf)
 //@   ensures rleKeeps(r)
+//@   ensures[C07] encInv(r)
 
 //@ func (*RLE).writeOrAppendBitPackedRun
-//@   requires rleShape(r)
+//@   split r.bitWidth == 1
+//@   split r.bitWidth == 2
+//@   split r.bitWidth == 3
+//@   requires rleShape(r) && openRun(r)
+//@   safety[C07]
 //@   modifies r, r.out, HA(r.out.d)
 //@   ensures rleKeeps(r)
+//@   ensures[C07] rleShape(r) && openRun(r) && r.bufCount == 0 && r.repeatCount == 0 && r.headerPointer != -1
 
 //@ func (*RLE).endPreviousBitPackedRun
-//@   requires rleShape(r)
+//@   requires rleShape(r) && openRun(r)
+//@   safety[C07]
 //@   modifies r, r.out, HA(r.out.d)
 //@   ensures rleKeeps(r)
+//@   ensures[C07] rleShape(r) && r.headerPointer == -1 && r.groupCount == 0 && r.out.i == old(r.out.i) && r.bufCount == old(r.bufCount) && r.repeatCount == old(r.repeatCount)
+//@   ensures[C07] old(r.headerPointer) != -1 ==> r.out.d[old(r.headerPointer)] == 2 * old(r.groupCount) + 1 && 2 * old(r.groupCount) + 1 < 128
 
 //@ func (*RLE).writeRLERun
-//@   requires rleShape(r)
+//@   requires rleShape(r) && openRun(r) && 0 <= r.repeatCount && r.repeatCount < 1073741824
+//@   safety[C07]
 //@   modifies r, r.out, HA(r.out.d)
 //@   ensures rleKeeps(r)
+//@   ensures[C07] rleShape(r) && r.headerPointer == -1 && r.groupCount == 0 && r.repeatCount == 0 && r.bufCount == 0
 
 //@ func (*RLE).writeIntLittleEndianPaddedOnBitWidth
 //@   modifies nothing
+//@   ensures[C07] 1 <= bitWidth && bitWidth <= 8 ==> res1 == nil && #res0 == 1 && res0[0] == v
 
+// ULEB128: every byte but the last has the continuation bit, the payload bits are the value
 //@ func (*RLE).leb128
+//@   requires 0 <= value && value < 2147483648
+//@   safety[C07]
 //@   modifies nothing
+//@   ensures[C07] #res >= 1 && #res <= 5 && freshsince(res)
+//@   ensures[C07] value < 128 ==> #res == 1 && res[0] == value
+//@   ensures[C07] value >= 128 && value < 16384 ==> #res == 2 && res[0] == 128 + value % 128 && res[1] == value / 128
 //@ loop (*RLE).leb128#1
-//@   invariant freshOrNil(out)
+//@   invariant freshOrNil(out) && 0 <= value && value <= old(value)
+//@   invariant[C07] (old(value) < 128 ==> #out == 0 && value == old(value))
+//@   invariant[C07] (old(value) >= 128 && old(value) < 16384 ==> (#out == 0 && value == old(value)) || (#out == 1 && out[0] == 128 + old(value) % 128 && value == old(value) / 128))
+//@   invariant[C07] #out <= 4 && (#out == 1 ==> value < 16777216) && (#out == 2 ==> value < 131072) && (#out == 3 ==> value < 1024) && (#out == 4 ==> value < 8)
 
 //@ func (*RLE).Bytes
-//@   requires rleShape(r)
+//@   split r.bitWidth == 1
+//@   split r.bitWidth == 2
+//@   split r.bitWidth == 3
+//@   requires encInv(r) && r.repeatCount < 1073741824
+//@   safety[C07]
 //@   modifies r, r.out, HA(r.out.d), HA(r.valBuf)
+//@   ensures[C07] r.headerPointer == -1 && r.groupCount == 0 && #res == 4 + r.out.i
 //@ loop (*RLE).Bytes#1
 //@   invariant r.out == old(r.out) && r.valBuf == old(r.valBuf) && r.out.d == old(r.out.d) && 0 <= i
+//@   invariant[C07] rleShape(r) && openRun(r) && r.bufCount == old(r.bufCount) && r.bufCount <= i && r.repeatCount == old(r.repeatCount) && r.out.i == old(r.out.i)
 
 // ---- decoder (operates on in-memory readers only)
 
